@@ -604,7 +604,18 @@ impl ObjValue {
 				}
 			};
 		}
-		let result = self.get_idx_uncached(key, core);
+		// Assertions run before the first field read and may read this very field:
+		// reuse what they computed instead of evaluating the field a second time
+		let result = match self.run_assertions() {
+			Ok(()) => {
+				let cached = match self.0.value_cache.borrow().get(&cache_key) {
+					Some(CacheValue::Cached(v)) => Some(v.clone()),
+					_ => None,
+				};
+				cached.unwrap_or_else(|| self.get_idx_uncached(key, core))
+			}
+			Err(e) => Err(e),
+		};
 		{
 			let mut cache = self.0.value_cache.borrow_mut();
 			cache.insert(cache_key, CacheValue::Cached(result.clone()));
